@@ -336,6 +336,17 @@ def check_groups(ctx, db):
                 trips.append(t)
         pk = next(('v%d:%s' % (p_['d'], p_['n']) for p_ in f.params if p_['n'] == 'points'), None)
         gk = next(('v%d:%s' % (p_['d'], p_['n']) for p_ in f.params if p_['n'] == 'polygons'), None)
+        # the group's box (pre-filter) is accumulated over EVERY polygon: the bounding_box call inside the loop over the group is
+        # not skipped for any polygon (a degenerate polygon still contains the points on it)
+        if gk is not None:
+            for c in f.walk():
+                if c.k == 'CXXMemberCallExpr' and (c.callee or '') == 'gdstk::Polygon::bounding_box':
+                    L = LP.enclosing_loop(c)
+                    if L is None:
+                        continue
+                    conds = tables.path_conds(c, stop=L)
+                    ctx.check(not conds, 'R-AGG', '%s/box-over-every-polygon@%s' % (qn.replace('gdstk::', ''), c.loc()), c.loc(), 'the group bounding box takes in every polygon of the group',
+                              'the bounding box of a polygon is skipped when `%s`: points that only that polygon contains are rejected by the pre-filter before contain() is asked' % ' '.join(conds[0][0].text().split())[:80] if conds else '')
         needp = pk is not None and {pk + '.count': 1} in trips          # some loop runs exactly points.count times (any loop form)
         needg = qn.startswith('gdstk::Polygon::') or (gk is not None and {gk + '.count': 1} in trips)
         ctx.check(needp and needg, 'R-AGG', '%s/all-points-all-polygons' % qn.replace('gdstk::', ''), f.loc(), 'loops run over all points (and all polygons of the group)')
@@ -466,12 +477,12 @@ def check_inside_writes_all(ctx, db):
 
 def run(ctx):
     db = ctx.db
-    check_prefilters(ctx, db)
-    check_contain(ctx, db)
-    check_groups(ctx, db)
-    check_measures(ctx, db)
-    check_translation_invariance(ctx, db)
-    check_inside_writes_all(ctx, db)
+    ctx.attempt(check_prefilters, ctx, db)
+    ctx.attempt(check_contain, ctx, db)
+    ctx.attempt(check_groups, ctx, db)
+    ctx.attempt(check_measures, ctx, db)
+    ctx.attempt(check_translation_invariance, ctx, db)
+    ctx.attempt(check_inside_writes_all, ctx, db)
 
 
 MANIFEST = dict(
